@@ -179,6 +179,56 @@ def r1_regions(repo, res):
                key=f"region-walker:{name}")
 
 
+def r1_symbolic(repo, res):
+    """Purely syntactic cross-check: per-op cursor increments read off the if/elif chain of every CIGAR walker."""
+    from checks._reads import cigar_loops, symbolic_cursor_table
+
+    n = 0
+    for ref in ("sam::Sample._parse_read", "sam::Sample._load_cn_region", "sam::Sample._get_gene_regions",
+                "profile::Profile.get_sam_profile_data"):
+        f = repo.func(ref)
+        res.analysed(f)
+        loops = cigar_loops(f)
+        if not loops:
+            res.note(f"C06.R1: {ref} has no `for op, size in <cigar>` loop any more; only its folded table is checked")
+            continue
+        for loop in loops:
+            tab = symbolic_cursor_table(loop)
+            if tab is None:
+                res.note(f"C06.R1: CIGAR loop of {ref} is not an if/elif chain on the op code; only its folded table is checked")
+                continue
+            cursors = set().union(*tab.values())
+            roles = {}
+            for c_ in cursors:
+                init = None
+                for node in ast.walk(f):
+                    if isinstance(node, ast.Assign) and node.lineno < loop.lineno:
+                        tg = node.targets[0]
+                        if isinstance(tg, ast.Name) and tg.id == c_:
+                            init = node.value
+                        elif isinstance(tg, ast.Tuple) and isinstance(node.value, ast.Tuple):
+                            for t_, v_ in zip(tg.elts, node.value.elts):
+                                if isinstance(t_, ast.Name) and t_.id == c_:
+                                    init = v_
+                roles[c_] = "query" if isinstance(init, ast.Constant) and init.value == 0 else "reference"
+            refc = [c_ for c_, r_ in roles.items() if r_ == "reference"]
+            qc = [c_ for c_, r_ in roles.items() if r_ == "query"]
+            bad = []
+            for k in (0, 1, 2, 4, 5, 7, 8):
+                adv = tab.get(k, set())
+                if refc and ((refc[0] in adv) != (k in CONSUMES_REF)):
+                    bad.append(f"{OPS[k]}: reference cursor {'advanced' if refc[0] in adv else 'not advanced'}")
+                if qc and ((qc[0] in adv) != (k in CONSUMES_QUERY and k != 5)):
+                    bad.append(f"{OPS[k]}: query cursor {'advanced' if qc[0] in adv else 'not advanced'}")
+            n += 1
+            res.ob("C06.R1", f, loop, not bad and len(refc) == 1,
+                   expected="branch table: M/=/X advance both cursors, D the reference cursor, I and S the query cursor, H none",
+                   found="agrees with the SAM specification" if not bad else "; ".join(bad),
+                   clause="matches, mismatches and deleted bases each count once; soft clips and insertions consume no reference",
+                   key=f"symbolic-cursor-table:{ref.split('::')[1]}")
+    res.count("C06.R1:walkers with a syntactic cursor table", n)
+
+
 def r3(repo, res):
     tot = repo.func("coverage::Coverage.total")
     init = repo.func("coverage::Coverage.__init__")
@@ -313,6 +363,7 @@ def r6(repo, res):
 
 def run(repo, res):
     r1_r2_r5(repo, res)
+    r1_symbolic(repo, res)
     r2_multi(repo, res)
     r1_regions(repo, res)
     r3(repo, res)
